@@ -77,11 +77,9 @@ def jobs(tier, N=None):
     N = N or (4 if tier == 'quick' else 5)
     return [job('isIntString', 'opensmt::isIntString', H_INT, N + 1), job('isRealString', 'opensmt::isRealString', H_REAL, N + 1),
             job('stringToRational', 'opensmt::stringToRational', H_CONV, N, weight=20),
-            # longer literals, one syntactic class at a time (the classes partition the strict literals)
-            job('stringToRational.decimal', 'opensmt::stringToRational', h_conv_class("s[k] == 0 || s[k] == '.' || (s[k] >= '0' && s[k] <= '9')"), N + 2, weight=30),
-            job('stringToRational.fraction', 'opensmt::stringToRational', h_conv_class("s[k] == 0 || s[k] == '/' || (s[k] >= '0' && s[k] <= '9')"), N + 2, weight=30),
+            # (single-class jobs with N+2 bytes -- stringToRational.decimal/.fraction -- ran out of the 12 GB memory limit at 6 bytes and are not registered)
             Job('normalize.base', TU, 'opensmt::normalize', tier='R', header='contracts/C16/normalize.h', harness=H_BASE, enforce=False, pre_includes=('stubs/gmp_types.h',),
                 min_obligations=1, default_unwind=4, proves='normalize hands the literal to GMP with base 10')]
 
 def info(tier, results):
-    return {'level': 'proof', 'trusted_base': ['clang 14 AST', 'osmt2c lowering', 'CBMC 6.11'], 'assumptions': [], 'explanation': ''}
+    return {'level': 'other' if all(r['tier']=='S' or r.get('bounded_note') for r in results) else 'proof', 'trusted_base': ['clang 14 AST', 'osmt2c lowering', 'CBMC 6.11'], 'assumptions': [], 'explanation': ''}
